@@ -141,7 +141,29 @@ def run(rep, tier):
                     if __import__('os').environ.get('C09_DEBUG'):
                         for k in leak:
                             print('DEBUG', k, repr(o1[k])[:300], '|||', repr(rename(o2[k], mapping))[:300])
-                    report(rep, ename, e, params, m, prime, leak)
+                    if report(rep, ename, e, params, m, prime, leak, quiet=True):
+                        continue
+                    # the model over-approximates what a std parse error reveals (its whole input); natively the message depends on
+                    # the *kind* of failure.  Ask for witnesses whose two runs differ in that kind: empty vs non-empty, digits that
+                    # overflow vs a non-digit
+                    found = False
+                    for p_ in params:
+                        if found:
+                            break
+                        for v in p_.vals:
+                            l1, l2 = v.len, prime[str(v.len)]
+                            b1 = [prime[str(b)] for b in v.bytes]
+                            digit = lambda b: z3.And(z3.UGE(b, 48), z3.ULE(b, 57))
+                            for extra in (z3.And(l1 == 0, l2 != 0), z3.And(l1 != 0, l2 == 0),
+                                          z3.And(l1 == len(v.bytes), l2 == len(v.bytes), *[digit(b) for b in v.bytes], z3.Not(digit(b1[0])))):
+                                m2 = dec.decide(f'{ename}:pair{npairs}:witness-with-different-failure-kinds', s1, z3.And(cond, extra), channels=common)
+                                if m2 is not None and report(rep, ename, e, params, m2, prime, [k for k, d in diffs if z3.is_true(m2.eval(d, True))], quiet=True):
+                                    found = True
+                                    break
+                            if found:
+                                break
+                    if not found:
+                        report(rep, ename, e, params, m, prime, leak)
             # positive part: decoded safe arguments are logged under their declared names
             for (s1, k1, o1, c1) in outs:
                 if k1 == 'ok':
@@ -240,7 +262,7 @@ def run_token_debug(rep):
     finish_engine(rep, it)
 
 
-def report(rep, ename, e, params, m, prime, leak):
+def report(rep, ename, e, params, m, prime, leak, quiet=False):
     op1 = concrete_request(e, params, m)
 
     class M2:
@@ -253,8 +275,9 @@ def report(rep, ename, e, params, m, prime, leak):
     r2 = replay([op1, op2], 'release')
     rep.replayed += 2
     if any('error' in x for x in r):
-        rep.inconc(f'C09 counterexample not replayable: {r}')
-        return
+        if not quiet:
+            rep.inconc(f'C09 counterexample not replayable: {r}')
+        return False
     def chan(x):
         d = {}
         for kv in x.get('safe_params', []):
@@ -270,8 +293,10 @@ def report(rep, ename, e, params, m, prime, leak):
         rep.violation('C09:leak:' + ','.join(sorted(set(k.split('.')[0] + '.' + k.split('.')[1] if k.count('.') else k for k in leak))),
                       f'endpoint {ename}: two requests that agree on every declared-safe argument and on shape give different safe observations {v1} vs {v2} (channels {leak})',
                       {'request_a': op1, 'request_b': op2, 'native_a': r[0], 'native_b': r[1]})
-    else:
+        return True
+    if not quiet:
         rep.inconc(f'model mismatch C09 {ename}: channels {leak} differ in the model but native safe views are {v1} / {v2}')
+    return False
 
 
 def replay_cmd(path):
